@@ -65,6 +65,13 @@ pub fn run(cases: &[Vec<String>]) {
                 let u = vec![c[0].clone(), "c15".into(), c[3].clone(), c[4].clone()];
                 run_async_case(1, move || crate::c15::run_case(u))
             }
+            "srv" => {
+                // id c16 srv <kind> <reliable> <code> <t0> <events> <horizon> ...: a server transaction through the C06 harness; the
+                // table size at the horizon (after every protocol timer) is what is looked at
+                let mut u = vec![c[0].clone(), "c06".into()];
+                u.extend(c[3..].iter().cloned());
+                run_async_case(1, move || crate::tsx_server::run_case(u))
+            }
             "stun" => {
                 // id c16 stun <reliable> <response ms|-> <wrong-id ms|-> <mode>  -> the C20 client harness
                 let mut u = vec![c[0].clone(), "c20".into(), "cli".into()];
